@@ -5,6 +5,9 @@ package main
 
 import (
 	"bufio"
+	"bytes"
+	"regexp"
+	"time"
 	"encoding/json"
 	"flag"
 	"fmt"
@@ -35,6 +38,14 @@ type call struct {
 	Exs  bool     `json:"exs"`
 	Exe  bool     `json:"exe"`
 	Lim  int      `json:"lim"`
+	P    []int    `json:"p"`
+	Off  int      `json:"off"`
+	Reg  string   `json:"reg"`
+}
+
+type kvst struct {
+	K  []int  `json:"k"`
+	St string `json:"st"`
 }
 
 type znode struct {
@@ -47,6 +58,7 @@ type pre struct {
 	List []string            `json:"list"`
 	Sets map[string][]string `json:"sets"`
 	Z    []znode             `json:"z"`
+	KV   []kvst              `json:"kv"`
 }
 
 type scen struct {
@@ -171,11 +183,28 @@ func exec(t *hx.Tx, c call, b string) {
 		t.ZScore(b, c.kb())
 	case "zgetbykey":
 		t.ZGetByKey(b, c.kb())
+	case "pscan":
+		t.PrefixScan(b, bytesOf(c.P), c.Off, c.Lim)
+	case "psscan":
+		// the match set is computed with Go's regexp over the key universe
+		// (the property is about liveness and paging, not about regexp)
+		rgx, err := regexp.Compile(c.Reg)
+		var ms [][]byte
+		if err == nil {
+			for _, k := range pageKeys {
+				if bytes.HasPrefix(k, bytesOf(c.P)) && rgx.Match(bytes.TrimPrefix(k, bytesOf(c.P))) {
+					ms = append(ms, k)
+				}
+			}
+		}
+		t.PrefixSearchScan(b, bytesOf(c.P), c.Reg, ms, err != nil, c.Off, c.Lim)
 	default:
 		fmt.Fprintln(os.Stderr, "replay: unknown op", c.Op)
 		os.Exit(2)
 	}
 }
+
+var pageKeys = [][]byte{[]byte("a"), []byte("ab"), []byte("abc"), []byte("b"), []byte("bc")}
 
 func preKey(p pre) string {
 	b, _ := json.Marshal(p)
@@ -203,6 +232,29 @@ func build(s *hx.Sess, kind string, p pre, b string) {
 		for _, k := range ks {
 			if len(p.Sets[k]) > 0 {
 				t.SAdd(b, k, bs(p.Sets[k])...)
+			}
+		}
+	case "kvpage":
+		now := uint64(time.Now().Unix())
+		for _, x := range p.KV {
+			k := bytesOf(x.K)
+			switch x.St {
+			case "live":
+				t.Put(b, k, append([]byte("v-"), k...), 0)
+			case "deleted":
+				t.Put(b, k, []byte("old"), 0)
+			case "expired":
+				t.PutTS(b, k, append([]byte("x-"), k...), 500, now-1000)
+			}
+		}
+		t.Commit(nil)
+		t, err = s.Begin(true)
+		if err != nil {
+			os.Exit(2)
+		}
+		for _, x := range p.KV {
+			if x.St == "deleted" {
+				t.Delete(b, bytesOf(x.K))
 			}
 		}
 	case "zset":
@@ -244,6 +296,8 @@ func main() {
 	seed := flag.Int64("seed", 1, "seed for layouts and sampling")
 	sample := flag.Int("sample", 0, "intx: number of two-operation transactions to sample (0 = all)")
 	batch := flag.Int("batch", 1, "scenario groups per database / history")
+	idx := flag.String("idx", "keyval", "index mode: keyval | keyonly | sparse")
+	segsz := flag.Int64("seg", 64*1024, "segment size")
 	flag.Parse()
 
 	f, err := os.Open(*in)
@@ -289,8 +343,14 @@ func main() {
 		os.RemoveAll(dir)
 		opt := nutsdb.DefaultOptions
 		opt.Dir = dir
-		opt.SegmentSize = 64 * 1024
+		opt.SegmentSize = *segsz
 		opt.SyncEnable = false
+		switch *idx {
+		case "keyonly":
+			opt.EntryIdxMode = nutsdb.HintKeyAndRAMIdxMode
+		case "sparse":
+			opt.EntryIdxMode = nutsdb.HintBPTSparseIdxMode
+		}
 		opt.RWMode = nutsdb.RWMode(dbn % 2)
 		sess.Opt = opt
 		rec.Emit(hx.Ev{"op": "reset", "family": "replay-" + *mode, "db": dbn})
